@@ -8,6 +8,18 @@ CLAIMED = {
  "C01": dict(level="exploration", technique="property-based testing (rapid) + exhaustive tree enumeration; differential oracle: independent rules implementation (refchess)",
    text="Generated-input search: the engine's legal move list is compared as a multiset (from,to,kind,promotion) with an independent naive rules implementation at every position of generated playouts (incrementally reached and re-created from FEN), on constructed legal positions, and at every node of exhaustive legal trees below ~500 seed positions; perft totals (batch and on-demand) are compared with the oracle count. No counterexample in N cases is what is claimed; the tree part is exhaustive below its roots to the stated depth.",
    note="Trusted base: refchess (validated in setup and in its own tests against the published perft tables with sub-counts to 4.8M nodes); legality domain as stated in the property; Go toolchain.", ref="DESIGN.md §2 C01"),
+ "C02": dict(level="exploration", technique="property-based testing (rapid): generated move histories; differential oracle refchess.Make, field-by-field FEN and accessor comparison",
+   text="After every DoMove of generated legal-move histories (drawn clocks/move numbers, both sides to move, up to the 512-ply capacity) and for all legal moves of generated positions, the engine's FEN and accessors are compared field by field with the independent rule-defined successor. Sampled search: no counterexample in N generated moves, with the histogram of special-move classes reported.",
+   note="Trusted base: refchess.Make (ep target after every double push, as the engine's FEN documents); histories <= 512 plies.", ref="DESIGN.md §2 C02"),
+ "C03": dict(level="exploration", technique="property-based testing (rapid), stateful: generated do/null/undo histories executed on the engine, invariant = snapshot equality before-do/after-undo",
+   text="Generated properly nested do / null-move / undo histories (nesting to 500) and exhaustive do+undo of every legal move 1-2 plies below generated positions; a snapshot of every observable named in the property (FEN, key, bitboards, king squares, material, psq, game phase, check flag, last move/capture, repetition answers, insufficient material, static evaluation) taken before each do must be identical after the matching undo; the engine's own internal do/undo users (GenerateLegalMoves, HasLegalMove) must leave it unchanged.",
+   note="Null moves only when not in check (search precondition); reference model only chooses legal moves, the oracle is the engine's own earlier snapshot.", ref="DESIGN.md §2 C03"),
+ "C04": dict(level="exploration", technique="property-based testing (rapid): differential (incremental vs recomputed from FEN), sum-over-board oracle, metamorphic key equality/inequality pairs",
+   text="Every position of generated histories (also after undo excursions) is compared with a fresh position built from its FEN and with sums of the published per-piece values over the board; keys must agree for all descriptions of the same position (other clocks, short FENs, ep FENs, repeated positions, permuted move orders) and differ for legal positions differing in one key component.",
+   note="A 64-bit key collision between different positions would be reported as a violation (probability negligible at these case counts).", ref="DESIGN.md §2 C04"),
+ "C18": dict(level="exploration", technique="exhaustive enumeration of finite table domains + rapid-drawn occupancies; oracle: geometric (file,rank) definitions",
+   text="All line-occupancy subsets for all 64 squares (rook 2^14, bishop <=2^13 per square, each in 4 paddings) for rook/bishop/queen attacks, and all squares / pairs / directions / colours for the non-sliding tables, rays, in-between sets, masks, distances, castling rights by square and single-bit shifts are enumerated completely (exhaustive: true for those sub-checks); full-board shifts, bit helpers and deprecated line look-ups are sampled with drawn boards.",
+   note="Geometric definitions are the harness' own ray-walking code; RotateR90/L90/R45/L45 are covered only through the deprecated look-ups.", ref="DESIGN.md §2 C18"),
 }
 
 NOT_YET = "check not built yet in this session (work in progress; see DESIGN.md)"
